@@ -10,7 +10,7 @@
    Executable definitions only; the theorems are in ProofsGate.v, the pinned variant of the
    seeded change C16-9 (striped deletion counters) in Pinned.v. *)
 From Coq Require Import List ZArith Bool.
-From GZ Require Import C16.Model.
+From GZ Require Import C16.Model C16.ModelW.
 Import ListNotations. Open Scope Z_scope.
 
 (* the key an operation addresses *)
@@ -58,6 +58,36 @@ Definition c_take_held_striped (stripe : Z -> Z) (c : cache) (k : Z) (f : option
       | Some v => (if existsb (bumps stripe k) inner then c3 else fst (c_set c3 k v),
                    OTake (Some v) true, c_run c2 inner)
       | None => (c3, OTake None true, c_run c2 inner)
+      end
+    end
+  end.
+
+(* ---- the same with the cache's timing wheel (ModelW): the operations run while the loader is
+   parked include TICKS of the wheel, whose callbacks delete the entries that expire meanwhile;
+   the loaded value's own timer is set when the loader returns *)
+Definition xop_avoids (k : Z) (o : xop) : Prop :=
+  match o with
+  | XSet k' _ _ => k' <> k
+  | XGet k' => k' <> k
+  | XDel k' => k' <> k
+  | XTake k' _ _ => k' <> k
+  | XTick => True
+  end.
+
+Definition cw_take_held (s : cachew) (k : Z) (f : option Z) (d : Z) (inner : list xop)
+  : cachew * obs * list obs :=
+  match c_doget (cwc s) k with
+  | (c1, Some v) =>
+    let s1 := mkCW c1 (cww s) (cwmv s) in (cw_final s1 inner, OTake (Some v) false, cw_run s1 inner)
+  | (c1, None) =>
+    let s1 := mkCW c1 (cww s) (cwmv s) in
+    let s3 := cw_final s1 inner in                        (* ... fetch() parked ... *)
+    match c_doget (cwc s1) k with                         (* (the double check came before) *)
+    | (_, Some v) => (s3, OTake (Some v) false, cw_run s1 inner)
+    | (_, None) =>
+      match f with
+      | Some v => (fst (fst (cw_set s3 k v d)), OTake (Some v) true, cw_run s1 inner)
+      | None => (s3, OTake None true, cw_run s1 inner)
       end
     end
   end.
